@@ -1,4 +1,5 @@
 (* Proofs about the scheduler model: re-exports the proof files. *)
 From VF Require Export Sched.Spec.
 From VF Require Export Sched.ProofsAssoc Sched.ProofsBasic Sched.ProofsFrame Sched.ProofsFoot
-  Sched.ProofsStreams Sched.ProofsFaithful Sched.ProofsExec Sched.ProofsRoute Sched.ProofsSpec Sched.ProofsPolicy.
+  Sched.ProofsStreams Sched.ProofsFaithful Sched.ProofsExec Sched.ProofsRoute Sched.ProofsSpec Sched.ProofsPolicy
+  Sched.ProofsInv Sched.ProofsRefs Sched.ProofsRefs2 Sched.ProofsInflight.
